@@ -59,9 +59,12 @@ THEOREMS = [
     "Verif.C10.window_points_le",
     "Verif.C10.window_bookkeeping",
     "Verif.C10.bin_width_constructed",
+    "Verif.C10.edge_contains_iff",
+    "Verif.C10.peaks_ranges_exact",
+    "Verif.C10.peaks_range_only_baseline",
     "Verif.C10.peaks_then_exclude",
-    "Verif.C10.peaks_then_exclude_only",
     "Verif.C10.excludePeaks_ok",
+    "Verif.C10.F_C10_1_witness",
 ]
 RULE = "filled in below"
 TRUSTED = [
@@ -257,7 +260,12 @@ def peaks_flat(f, p, table, baseline, cutoff, ans):
                 return plain
             first = f.index(lo)
             df = f[1] - f[0]
-            last = min(range(first, len(f)), key=lambda j: abs(f[j] + df - hi))
+            # the run ends at the bin before the one whose frequency is the reported upper edge (or with the spectrum);
+            # an answer that follows neither reading (the rule before the fix of F-C10-1) is read by the nearest sum
+            ends = [j for j in range(first, len(f)) if (j + 1 < len(f) and f[j + 1] == hi)]
+            if not ends and abs(f[-1] + df - hi) <= Fraction(TOL) * abs(hi):
+                ends = [len(f) - 1]
+            last = ends[0] if ends else min(range(first, len(f)), key=lambda j: abs(f[j] + df - hi))
             inside.update(range(first, last + 1))
     flat = [Fraction(v) for v in plain]
     for i, which in near.items():
@@ -348,11 +356,12 @@ def run_chain(case):
                 rs = [(a, b) for a, b in st[1]]
                 composite = False
                 if from_peaks and last_peaks is not None and last_peaks[0] is ps and len(f_in) >= 2 and [list(r) for r in rs] == [[float(a), float(b)] for a, b in last_peaks[1]]:
-                    # identify_peaks -> _exclude_range as ONE model run, where the reported upper edges are exact sums
-                    # frequency[x1] + df (the model adds exactly); otherwise the plain exclusion with the code's ranges
+                    # identify_peaks -> _exclude_range as ONE model run, where the reported upper edges are frequencies of
+                    # the axis (the next bin) or, for a run that ends with the spectrum, the exact sum frequency[-1] + df
+                    # (the model adds exactly); otherwise the plain exclusion with the code's own ranges
                     fq = [F(v) for v in f_in]
                     dfq = fq[1] - fq[0]
-                    composite = all(F(b) - dfq in fq for _, b in rs)
+                    composite = all(F(b) in fq or F(b) == fq[-1] + dfq for _, b in rs)
                 if composite:
                     _chain_stats["peaks_then_exclude_composite"] = _chain_stats.get("peaks_then_exclude_composite", 0) + 1
                     ops.append(f"c10.peaksexclude {nppb_in} {enc_rat(last_peaks[3])} {enc_rat(last_peaks[4])} {enc_list(last_peaks[2], enc_rat)} {ratlist(f_in)} {ratlist(p_in)}")
@@ -623,8 +632,10 @@ def agree(case, i, ia, ma):
         ii = [] if ia == "[]" else [tuple(dec_rat(v) for v in r.split(":")) for r in ia[1:-1].split(",")]
         if len(mi) != len(ii):
             return False
-        for (a, b), (c, d) in zip(ii, mi):
-            if a != c or abs(b - d) > Fraction(TOL) * max(abs(b), abs(d)):
+        for n_, ((a, b), (c, d)) in enumerate(zip(ii, mi)):
+            # the upper edge is the frequency of the next bin: exact; only the last range can end with the spectrum,
+            # where the edge is the rounded sum frequency[-1] + df
+            if a != c or (b != d and (n_ + 1 < len(ii) or abs(b - d) > Fraction(TOL) * max(abs(b), abs(d)))):
                 return False
         return True
     return ia == ma
@@ -836,28 +847,31 @@ def oracle_peaks(st, state, ans):
         return None if not rngs else "identify_peaks: ranges reported although no bin exceeds the cut-off"
     df = f[1] - f[0]
     increasing = all(f[i] < f[i + 1] for i in range(len(f) - 1))
-    uniform = increasing and all(abs((f[i + 1] - f[i]) - df) <= Fraction(TOL) * abs(df) for i in range(len(f) - 1))
     if not increasing:
         return None  # not a spectrum's frequency axis: left to the model comparison (index level)
     for i in above:
         if not any(lo <= f[i] < hi for lo, hi in rngs):
             return f"identify_peaks: bin {i} exceeds the cut-off but lies in no returned range"
-    if df > 0 and uniform:
-        eps = Fraction(1, 10**6) * df
-        for lo, hi in rngs:
-            inside = [i for i in range(len(f)) if lo <= f[i] < hi - eps]
-            if any(flat[i] < baseline for i in inside):
-                return "identify_peaks: a returned range contains a bin below the baseline"
-            if not any(flat[i] > cutoff for i in inside):
-                return "identify_peaks: a returned range contains no bin above the cut-off"
-            # maximal: the neighbours are below the baseline; upper edge = last frequency + df
-            first, last = inside[0], inside[-1]
-            if first > 0 and flat[first - 1] >= baseline or last + 1 < len(f) and flat[last + 1] >= baseline:
-                return "identify_peaks: a returned range is not a maximal baseline run"
-            if lo != f[first] or abs(hi - (f[last] + df)) > eps:
-                return "identify_peaks: range edges are not (first frequency, last frequency + df)"
-        if any(rngs[i][1] > rngs[i + 1][0] for i in range(len(rngs) - 1)):
-            return "identify_peaks: ranges overlap or are out of order"
+    for lo, hi in rngs:
+        # read literally, NO slack at the upper edge (finding F-C10-1): the bins with lo <= f < hi
+        inside = [i for i in range(len(f)) if lo <= f[i] < hi]
+        if not inside:
+            return "identify_peaks: a returned range contains no bin"
+        if any(flat[i] < baseline for i in inside):
+            i = [i for i in inside if flat[i] < baseline][0]
+            return f"identify_peaks: the returned range [{float(lo)!r}, {float(hi)!r}) contains bin {i} (f = {float(f[i])!r}), which is below the baseline"
+        if not any(flat[i] > cutoff for i in inside):
+            return "identify_peaks: a returned range contains no bin above the cut-off"
+        # maximal: the neighbours are below the baseline; edges = (first frequency, frequency of the next bin)
+        first, last = inside[0], inside[-1]
+        if first > 0 and flat[first - 1] >= baseline or last + 1 < len(f) and flat[last + 1] >= baseline:
+            return "identify_peaks: a returned range is not a maximal baseline run"
+        if lo != f[first]:
+            return "identify_peaks: a range does not start at the frequency of its first bin"
+        if last + 1 == len(f) and abs(hi - (f[last] + df)) > Fraction(TOL) * abs(hi):
+            return "identify_peaks: the range that ends with the spectrum does not end at last frequency + df"
+    if any(rngs[i][1] > rngs[i + 1][0] for i in range(len(rngs) - 1)):
+        return "identify_peaks: ranges overlap or are out of order"
     return None
 
 
@@ -903,6 +917,8 @@ def oracle_chain(case, ia):
                 for i in range(len(f0)):
                     if flat[i] > pst[3] and f0[i] in kept:
                         return f"identify_peaks -> exclude: bin {i} exceeds the cut-off and survives the exclusion of the returned ranges"
+                    if flat[i] < pst[2] and f0[i] not in kept:
+                        return f"identify_peaks -> exclude: bin {i} (f = {float(f0[i])!r}) is below the baseline and is removed by the exclusion of the returned ranges"
         states.append(state)
     if idx < len(ia) and not _is_err(ia[idx]) and ia[idx] != "?":
         # the final object of the whole chain: a chain of range steps (no block average of >= 2 bins) keeps exactly the
